@@ -1,6 +1,8 @@
 """C20 Immutable bindings cannot be assigned, and assignment never crashes.
 
-Exhaustive: binding form x assignment operator x value type x enclosing context. Expectations
+Exhaustive: binding form (incl. the scopes between the declaration and the assigning code or
+the capturing lambda: if / for / while / match arm / block / nested) x assignment operator x
+value type x enclosing context. Expectations
 from the statement: `let` (also destructured) and variables captured by a lambda => rejected with
 a diagnostic; `var`, array elements and struct fields => accepted with the arithmetic effect;
 every other form (for variable, parameters, match / or-pattern bindings, task captures) => either
@@ -64,10 +66,46 @@ def form_code(form, ty, op):
         return ["let xs = [%s]" % i, "let gg = () -> {", "  xs[0] %s %s" % (op, t["rhs"]), "}", "gg()", "println(xs[0])"], "effect"
     if form == "captured-struct-field":
         return ["let s = %s(%s)" % (BOXN[ty], i), "let gg = () -> {", "  s.v %s %s" % (op, t["rhs"]), "}", "gg()", "println(s.v)"], "effect"
+    # placement of the assigning code relative to the declaration (scopes in between)
+    NEST = {
+        "if": (["if true {"], ["}"]),
+        "for": (["for q_ in 1 {"], ["}"]),
+        "while": (["var w_ = 0", "while w_ < 1 {", "  w_ += 1"], ["}"]),
+        "match-arm": (["match 1 {", "  _ -> {"], ["  }", "}"]),
+        "block": (["let u_ = {"], ["  0", "}"]),
+        "for-if": (["for q_ in 1 {", "  if true {"], ["  }", "}"]),
+        "if-else-branch": (["if false {", "} else {"], ["}"]),
+    }
+    for nest, (pre, post) in NEST.items():
+        lam = ["  let gg = () -> {", "    " + a, "  }", "  gg()"]
+        if form == "lambda-capture-in-" + nest:
+            return ["var x = %s" % i] + pre + lam + post + ["println(x)"], "reject"
+        if form == "lambda-capture-let-in-" + nest:
+            return ["let x = %s" % i] + pre + lam + post + ["println(x)"], "reject"
+        if form == "let-assign-in-" + nest:
+            return ["let x = %s" % i] + pre + ["  " + a] + post + ["println(x)"], "reject"
+        if form == "var-assign-in-" + nest:
+            return ["var x = %s" % i] + pre + ["  " + a] + post + ["println(x)"], "effect"
+    if form == "lambda-capture-nested-lambda":
+        return ["var x = %s" % i, "let gg = () -> {", "  let hh = () -> {", "    " + a, "  }", "  hh()", "}", "gg()", "println(x)"], "reject"
+    if form == "lambda-capture-nested-lambda-in-if":
+        return ["var x = %s" % i, "let gg = () -> {", "  if true {", "    let hh = () -> {", "      " + a, "    }", "    hh()", "  }", "}", "gg()", "println(x)"], "reject"
+    if form == "lambda-capture-param":
+        return ["let gg = (x: %s) -> {" % t["ann"], "  let hh = () -> {", "    " + a, "  }", "  hh()", "  println(x)", "}", "gg(%s)" % i], "reject"
+    if form == "lambda-capture-for-var":
+        return ["for x in [%s] {" % i, "  let hh = () -> {", "    " + a, "  }", "  hh()", "  println(x)", "}"], "reject"
+    if form == "lambda-capture-match-binding":
+        return ["match %s {" % i, "  x -> {", "    let hh = () -> {", "      " + a, "    }", "    hh()", "    println(x)", "  }", "}"], "reject"
+    if form == "lambda-local-var":
+        # a var declared inside the lambda is the lambda's own: assignable
+        return ["let gg = () -> {", "  var x = %s" % i, "  if true {", "    " + a, "  }", "  println(x)", "}", "gg()"], "effect"
     raise ValueError(form)
 
 
-FORMS = ["let", "var", "var-annotated", "for-var", "fn-param", "lambda-param", "match-binding", "or-binding", "let-destructured", "var-destructured",
+_NESTS = ["if", "for", "while", "match-arm", "block", "for-if", "if-else-branch"]
+FORMS = [f + n for n in _NESTS for f in ("lambda-capture-in-", "lambda-capture-let-in-", "let-assign-in-", "var-assign-in-")] + [
+    "lambda-capture-nested-lambda", "lambda-capture-nested-lambda-in-if", "lambda-capture-param", "lambda-capture-for-var",
+    "lambda-capture-match-binding", "lambda-local-var"] + ["let", "var", "var-annotated", "for-var", "fn-param", "lambda-param", "match-binding", "or-binding", "let-destructured", "var-destructured",
          "lambda-capture", "lambda-capture-let", "task-capture", "array-elem", "array-elem-var-index", "struct-field", "nested-field-elem",
          "captured-array-elem", "captured-struct-field"]
 
@@ -127,6 +165,8 @@ def run(ctx):
                 for cx in CONTEXTS:
                     if form == "fn-param" and cx != "top":
                         continue
+                    if ctx.quick and ty != "int" and ("-in-" in form or form.startswith("lambda-capture-") or form == "lambda-local-var"):
+                        continue  # placement forms: other value types in the thorough tier
                     stmts, required = form_code(form, ty, op)
                     eff = TYPES[ty]["eff"].get(op)
                     if eff is None and required == "effect":
@@ -137,20 +177,14 @@ def run(ctx):
                     jid = "a%05d" % n
                     n += 1
                     # one job that checks, compiles and (if accepted) runs
-                    jobs.append({"id": jid, "mode": "checkcompile", "files": {"main.abra": src}})
-                    jobs.append({"id": jid + "r", "files": {"main.abra": src}, "runs": [{"budget": {"k": 50}, "max_steps": 200000}]})
+                    jobs.append({"id": jid, "also_check": True, "files": {"main.abra": src}, "runs": [{"budget": {"k": 50}, "max_steps": 200000}]})
                     meta[jid] = (key, required, eff, src)
     results = ctx.run(jobs)
     kinds = {"reject": 0, "effect": 0, "either": 0, "nocrash": 0}
     accepted_n = 0
 
     def merged(jid, results):
-        r = dict(results[jid])
-        rr = results[jid + "r"]
-        r["runs"] = rr.get("runs")
-        if "crash" in rr:
-            r["crash"] = rr["crash"]
-        return r
+        return results[jid]
     for jid, (key, required, eff, src) in meta.items():
         res = merged(jid, results)
         kinds[required] += 1
@@ -159,15 +193,10 @@ def run(ctx):
         why = judge(res, required, eff)
         if why:
             sig = "C20 " + key
-            job = {"id": "confirm", "mode": "checkcompile", "files": {"main.abra": src}}
+            job = {"id": "confirm", "also_check": True, "files": {"main.abra": src}, "runs": [{"budget": {"k": 50}, "max_steps": 200000}]}
 
-            def j(res2, required=required, eff=eff, src=src, sig=sig, ctx=ctx):
-                rr = ctx.ex.run_alone({"id": "confirm-r", "files": {"main.abra": src}, "runs": [{"budget": {"k": 50}, "max_steps": 200000}]})
-                m = dict(res2)
-                m["runs"] = rr.get("runs")
-                if "crash" in rr:
-                    m["crash"] = rr["crash"]
-                w = judge(m, required, eff)
+            def j(res2, required=required, eff=eff, sig=sig):
+                w = judge(res2, required, eff)
                 return [(sig, w)] if w else []
             ctx.candidate(sig, why + "\n--- program ---\n" + src, job, j)
     ctx.coverage(
